@@ -9,8 +9,29 @@ From Falcon Require Import Base.Res IL.Const IL.Expr Mem.PagedTypes Mem.Paged Me
 Import ListNotations.
 Local Open Scope Z_scope.
 
-(* x denotes c *)
-Definition Rv (x : expr) (c : const) : Prop := eval x = Ok c /\ e_bits x = cbits c.
+(* denotation of an expression under a valuation of its scalars (executor::eval after the scalars
+   have been replaced by constants; eval itself is the empty valuation: evalv_none) *)
+Fixpoint evalv (sg : scalar -> option const) (e : expr) : res const :=
+  match e with
+  | EScalar s => match sg s with Some c => Ok c | None => Err EExecScalar end
+  | EConst c => Ok c
+  | EBin o l r => a <- evalv sg l ;; b <- evalv sg r ;; c_bin o a b
+  | EExt o bits x => a <- evalv sg x ;; c_ext o bits a
+  | EIte c t f => cv <- evalv sg c ;; if c_is_one cv then evalv sg t else evalv sg f
+  end.
+Lemma evalv_none e : evalv (fun _ => None) e = eval e.
+Proof.
+  induction e as [s|c|o l IHl r IHr|o bits x IH|c IHc t IHt f IHf]; cbn [evalv eval]; try reflexivity.
+  - rewrite IHl, IHr. reflexivity.
+  - rewrite IH. reflexivity.
+  - rewrite IHc, IHt, IHf. reflexivity.
+Qed.
+
+Section Valuation.
+Variable sg : scalar -> option const.
+
+(* x denotes c (under the valuation) and has its width *)
+Definition Rv (x : expr) (c : const) : Prop := evalv sg x = Ok c /\ e_bits x = cbits c.
 
 Lemma Rv_const k : Rv (EConst k) k.
 Proof. split; reflexivity. Qed.
@@ -23,7 +44,7 @@ Proof.
   intros [He Hb]. unfold ev_shl, cv_shl, mk_bin. cbn [e_bits]. rewrite Hb, e_bits_expr_const, Z.eqb_refl.
   cbn [negb bind eval]. unfold expr_const. cbn [eval bind c_bin].
   unfold c_shl at 1. unfold same_sort. cbn [cbits new_big]. rewrite Z.eqb_refl. cbn [negb].
-  constructor. split; [cbn [eval]; rewrite He; cbn [bind c_bin]; unfold c_shl, same_sort; cbn [cbits new_big]; rewrite Z.eqb_refl; reflexivity|].
+  constructor. split; [cbn [evalv]; rewrite He; cbn [bind c_bin]; unfold c_shl, same_sort; cbn [cbits new_big]; rewrite Z.eqb_refl; reflexivity|].
   cbn [e_bits is_cmp cbits new_big]. exact Hb.
 Qed.
 Lemma sim_shr x c n : Rv x c -> Rres Rv (ev_shr x n) (cv_shr c n).
@@ -31,7 +52,7 @@ Proof.
   intros [He Hb]. unfold ev_shr, cv_shr, mk_bin. cbn [e_bits]. rewrite Hb, e_bits_expr_const, Z.eqb_refl.
   cbn [negb bind eval]. unfold expr_const. cbn [eval bind c_bin].
   unfold c_shr at 1. unfold same_sort. cbn [cbits new_big]. rewrite Z.eqb_refl. cbn [negb].
-  constructor. split; [cbn [eval]; rewrite He; cbn [bind c_bin]; unfold c_shr, same_sort; cbn [cbits new_big]; rewrite Z.eqb_refl; reflexivity|].
+  constructor. split; [cbn [evalv]; rewrite He; cbn [bind c_bin]; unfold c_shr, same_sort; cbn [cbits new_big]; rewrite Z.eqb_refl; reflexivity|].
   cbn [e_bits is_cmp cbits new_big]. exact Hb.
 Qed.
 Lemma sim_or x c y d : Rv x c -> Rv y d -> Rres Rv (mk_bin Or x y) (cv_or c d).
@@ -39,7 +60,7 @@ Proof.
   intros [He Hb] [He2 Hb2]. unfold cv_or, mk_bin. cbn [e_bits]. rewrite Hb, Hb2.
   destruct (Z.eqb_spec (cbits c) (cbits d)) as [E|N]; cbn [negb bind]; [|constructor].
   cbn [eval bind c_bin]. unfold c_or at 1. unfold same_sort. rewrite E, Z.eqb_refl. cbn [negb].
-  constructor. split; [cbn [eval]; rewrite He, He2; cbn [bind c_bin]; unfold c_or, same_sort; rewrite E, Z.eqb_refl; reflexivity|].
+  constructor. split; [cbn [evalv]; rewrite He, He2; cbn [bind c_bin]; unfold c_or, same_sort; rewrite E, Z.eqb_refl; reflexivity|].
   cbn [e_bits is_cmp cbits new_big]. rewrite Hb. exact E.
 Qed.
 Lemma sim_trun x c n : Rv x c -> Rres Rv (mk_ext Trun n x) (cv_trun c n).
@@ -47,14 +68,14 @@ Proof.
   intros [He Hb]. unfold cv_trun, mk_ext. cbn [e_bits]. rewrite Hb.
   destruct ((cbits c <=? n) || (cbits c =? 0)) eqn:G; cbn [bind]; [constructor|].
   apply orb_false_iff in G as [G1 G2]. cbn [eval bind c_ext]. unfold c_trun at 1. rewrite G1.
-  constructor. split; [cbn [eval]; rewrite He; cbn [bind c_ext]; unfold c_trun; rewrite G1; reflexivity|reflexivity].
+  constructor. split; [cbn [evalv]; rewrite He; cbn [bind c_ext]; unfold c_trun; rewrite G1; reflexivity|reflexivity].
 Qed.
 Lemma sim_zext x c n : Rv x c -> Rres Rv (mk_ext Zext n x) (cv_zext c n).
 Proof.
   intros [He Hb]. unfold cv_zext, mk_ext. cbn [e_bits]. rewrite Hb.
   destruct ((n <=? cbits c) || (cbits c =? 0)) eqn:G; cbn [bind]; [constructor|].
   apply orb_false_iff in G as [G1 G2]. cbn [eval bind c_ext]. unfold c_zext at 1. rewrite G1.
-  constructor. split; [cbn [eval]; rewrite He; cbn [bind c_ext]; unfold c_zext; rewrite G1; reflexivity|reflexivity].
+  constructor. split; [cbn [evalv]; rewrite He; cbn [bind c_ext]; unfold c_zext; rewrite G1; reflexivity|reflexivity].
 Qed.
 
 Definition Rmem_e := Rmem (V1 := expr) (V2 := const) Rv.
@@ -95,7 +116,7 @@ Proof. apply sim_new. Qed.
 Theorem expr_abs_load_l (me : @mem expr) (mc : @mem const) a n :
   Rmem_e me mc -> InvM mc -> back_ok (m_back mc) -> 1 <= n -> 8 * n < 2^63 -> 0 <= a -> a + n <= 2^64 ->
   match load_spec (m_end mc) (mabs mc) a n with
-  | Some c => exists x, load EOps me a (8 * n) = Ok (Some x) /\ eval x = Ok c /\ e_bits x = 8 * n
+  | Some c => exists x, load EOps me a (8 * n) = Ok (Some x) /\ evalv sg x = Ok c /\ e_bits x = 8 * n
   | None => load EOps me a (8 * n) = Ok None
   end.
 Proof.
@@ -109,3 +130,4 @@ Proof.
     injection L as <-. reflexivity.
   - inversion S as [o1 o2 Hr| |]; subst. inversion Hr; subst. reflexivity.
 Qed.
+End Valuation.
